@@ -377,6 +377,8 @@ def lab_run(task, spec, args):
     # uid-tagged side records (C18) ----------------------------------------------------------------------------
     task.logger.info(f'LABMSG uid={uid} n=1 task={full}')
     task.save_to_run_info({'lab_uid': uid, 'n': 1})
+    task.save_to_run_info(0)        # falsy records are records too
+    task.save_to_run_info({})
     # a counter object recorded, updated and recorded again (each record shows the state at the moment it was added)
     from collections import defaultdict as _dd
     progress = _dd(int)
